@@ -13,7 +13,8 @@
   The interface talks about ONE range `[first, last)`; positions are offsets from `first`.  Algorithms that take two
   ranges are therefore stated for two sub-ranges of one range (two blocks of rows of one view); copying between views of
   different arrays is C05.  Loop counters (`n = last - first`) are the `Nat` arguments.
-  sort, stable_sort, partial_sort, nth_element, rotate are not transcribed: validated only.
+  sort is transcribed for ranges of at most 16 elements (insertion sort); stable_sort, partial_sort, nth_element, rotate
+  are not transcribed: validated only.
 -/
 import MultiProofs.SeqSpec
 
@@ -158,6 +159,36 @@ def uniqAfter (eq : ρ → ρ → Bool) : ρ → List ρ → List ρ
 def uniq (eq : ρ → ρ → Bool) : List ρ → List ρ
   | [] => []
   | a :: r => a :: uniqAfter eq a r
+
+/-- sequencing: run `p`, discard the position it returns, continue with `k` -/
+def Prog.andThen : Prog ρ → Prog ρ → Prog ρ
+  | .ret _, k => k
+  | .read i f, k => .read i fun x => (f x).andThen k
+  | .write i x p, k => .write i x (p.andThen k)
+  | .assign i j p, k => .assign i j (p.andThen k)
+  | .swap i j p, k => .swap i j (p.andThen k)
+
+/-- `std::__unguarded_linear_insert(first + j, lt)` with the saved value `val`, then `k` — stl_algo.h:1785-1795
+    `val = std::move(*last); next = last; --next; while(comp(val, next)) { *last = std::move(*next); last = next; --next; }
+     *last = std::move(val);`  Unguarded: the caller has checked that `*first` is not above `val`; the `Nat` argument is `j`
+    (out of fuel = the read at `first - 1` that the real code would make: fails here) -/
+def linInsert (lt : ρ → ρ → Bool) (val : ρ) (k : Prog ρ) : Nat → Int → Prog ρ
+  | 0, j => .read (j - 1) fun _ => .ret 0
+  | f + 1, j => .read (j - 1) fun nx =>
+      if lt val nx then .assign j (j - 1) (linInsert lt val k f (j - 1)) else .write j val k
+
+/-- the loop of `std::__insertion_sort` at `i` with `n` elements to go — stl_algo.h:1807-1819
+    `for(i = first + 1; i != last; ++i) { if(comp(i, first)) { val = std::move(*i); std::move_backward(first, i, i + 1);
+     *first = std::move(val); } else std::__unguarded_linear_insert(i, comp); }` -/
+def insSortLoop (lt : ρ → ρ → Bool) : Nat → Int → Prog ρ
+  | 0, _ => .ret 0
+  | n + 1, i => .read i fun x => .read 0 fun f0 =>
+      if lt x f0 then (copyBackwardProg i.toNat i (i + 1)).andThen (.write 0 x (insSortLoop lt n (i + 1)))
+      else linInsert lt x (insSortLoop lt n (i + 1)) i.toNat i
+
+/-- `std::sort(first, first + n, lt)` for `n ≤ 16` (`_S_threshold`, stl_algo.h:1838): `__introsort_loop` does nothing,
+    `__final_insertion_sort` calls `__insertion_sort(first, last)` — stl_algo.h:1805 `if(first == last) return;` then the loop -/
+def insertionSortProg (lt : ρ → ρ → Bool) (n : Nat) : Prog ρ := if n = 0 then .ret 0 else insSortLoop lt (n - 1) 1
 
 /-- reference for `is_sorted`: no element is smaller than its predecessor -/
 def adjSorted (lt : ρ → ρ → Bool) : List ρ → Bool
